@@ -1,5 +1,7 @@
 import GoRes.Model.Index
 import GoRes.Lemmas.Index
+import GoRes.Model.QueryHandler
+import GoRes.Lemmas.QueryHandler
 /-! # C14 — query subscribers are always told when their result may have changed -/
 namespace GoRes.Props.C14
 open GoRes GoRes.Index
@@ -44,6 +46,65 @@ theorem unaffected_when_no_match {V : Type} (ix : Idx V) (pre : Bytes) (filter :
 theorem same_key_unaffected {V : Type} (ix : Idx V) (pre : Bytes) (filter : Option (Bytes → Bool)) (before after : Option V)
     (h : before.bind ix.key = after.bind ix.key) : affectsQuery ix pre filter before after = false := by
   simp [affectsQuery, h]
+
+/-! ## through the query handler (`store/querystorehandler.go`)
+
+A client holds the (transformed) result of a query. When the query store reports a change,
+the handler tells it something (`resourceEvent` for an ordinary resource, `queryRequest` for
+the client's query request on a query resource); after reacting to it the client holds what
+a fresh get serves — provided the query store's `Events` answer is sound for the change of
+the result. -/
+
+open GoRes.QueryHandler in
+/-- ordinary resources: reset → the client fetches again; events → it applies them -/
+theorem resource_client_coherent (tr : Trans) (t : RidOf) (a : Answer) (old new : List Bytes)
+    (hold : old.Nodup) (hs : soundAnswer a old new) :
+    clientApply (transformResult tr t old) (resourceEvent tr t a (transformResult tr t new)) = transformResult tr t new := by
+  exact QueryHandler.resource_coherent tr t a old new hold hs
+
+open GoRes.QueryHandler in
+/-- query resources: the answer to the client's query request is a new result or events -/
+theorem query_client_coherent (tr : Trans) (t : RidOf) (a : Answer) (old new : List Bytes)
+    (hold : old.Nodup) (hs : soundAnswer a old new) :
+    clientApply (transformResult tr t old) (queryRequest tr t a (transformResult tr t new)) = transformResult tr t new := by
+  exact QueryHandler.query_coherent tr t a old new hold hs
+
+open GoRes.QueryHandler in
+/-- BadgerDB's `queryChange.Events` (no events, reset = affected) is a sound answer for every
+mutation and every query: by `affected_sound` -/
+theorem badger_answer_sound {V : Type} (ix : Idx V) (vals : List (Bytes × V)) (id : Bytes) (after : Option V)
+    (pre : Bytes) (filter : Bytes → Bool) (offset limit : Int) (reverse : Bool)
+    (hd : (vals.map (·.1)).Nodup) :
+    soundAnswer (badgerAnswer ix pre (some filter) (vget vals id) after)
+      (spec (entriesOf ix vals) pre filter offset limit reverse)
+      (spec (entriesOf ix (vput vals id after)) pre filter offset limit reverse) := by
+  unfold soundAnswer badgerAnswer
+  by_cases h : affectsQuery ix pre (some filter) (vget vals id) after = true
+  · exact Or.inl h
+  · right
+    have heq : spec (entriesOf ix vals) pre filter offset limit reverse =
+        spec (entriesOf ix (vput vals id after)) pre filter offset limit reverse := by
+      apply Classical.byContradiction
+      intro hne
+      exact h (affected_sound ix vals id after pre filter offset limit reverse hd hne)
+    simp [wfEvents, heq]
+
+open GoRes.QueryHandler in
+/-- **end to end**: with the BadgerDB query store behind the handler, a client holding a query
+result — on an ordinary or on a query resource, with any of the stock transformers — holds a
+fresh get's result after every mutation, for every query (prefix, filter, window, direction) -/
+theorem badger_clients_coherent {V : Type} (ix : Idx V) (vals : List (Bytes × V)) (id : Bytes) (after : Option V)
+    (pre : Bytes) (filter : Bytes → Bool) (offset limit : Int) (reverse : Bool) (tr : Trans) (t : RidOf)
+    (hd : (vals.map (·.1)).Nodup) :
+    let old := spec (entriesOf ix vals) pre filter offset limit reverse
+    let new := spec (entriesOf ix (vput vals id after)) pre filter offset limit reverse
+    let a := badgerAnswer ix pre (some filter) (vget vals id) after
+    clientApply (transformResult tr t old) (resourceEvent tr t a (transformResult tr t new)) = transformResult tr t new ∧
+    clientApply (transformResult tr t old) (queryRequest tr t a (transformResult tr t new)) = transformResult tr t new := by
+  intro old new a
+  have hs := badger_answer_sound ix vals id after pre filter offset limit reverse hd
+  have hnd : old.Nodup := QueryHandler.spec_nodup ix vals pre filter offset limit reverse hd
+  exact ⟨resource_client_coherent tr t a old new hnd hs, query_client_coherent tr t a old new hnd hs⟩
 
 /-! ## non-vacuity -/
 example : affectsQuery (⟨[107], fun (v : Bytes) => some v⟩ : Idx Bytes) [97] none (some [97, 98]) (some [98]) = true := by decide
